@@ -37,10 +37,10 @@ ASSUMPTIONS = [
     "(their creation command was never sent)",
 ]
 MIN_COUNTERS = {
-    'quick': {'ops_compared': 100_000, 'messages_grammar_checked': 80_000,
-              'id_mentions_checked': 100_000, 'ledger_checks': 100_000,
-              'ok_blocks_checked': 3000, 'failed_blocks_checked': 2000,
-              'rt_histories': 200, 'multi_client_histories': 300,
+    'quick': {'ops_compared': 50_000, 'messages_grammar_checked': 40_000,
+              'id_mentions_checked': 50_000, 'ledger_checks': 50_000,
+              'ok_blocks_checked': 1500, 'failed_blocks_checked': 1000,
+              'rt_histories': 100, 'multi_client_histories': 150,
               'oracle_selftests': 1},
     'thorough': {'ops_compared': 2_000_000, 'messages_grammar_checked': 2_000_000,
                  'id_mentions_checked': 2_000_000, 'ledger_checks': 2_000_000,
